@@ -36,6 +36,7 @@ THEOREMS = [
     "Spydr.Eblif.one_instance_per_stmt",
     "Spydr.Eblif.names_latch_shape",
     "Spydr.Eblif.blackbox_leaf",
+    "Spydr.Eblif.parse_rendered_subckt",
     "Spydr.Eblif.eblif_reader_spec_partial",
     "Spydr.Eblif.eblif_roundtrip_partial",
 ]
@@ -492,7 +493,7 @@ def run(ctx):
         lean.leanchecker(ctx, MODULES)
     jobs = [("inputs", ctx.seed, 0, 0, ctx.tier, inputs[i::4]) for i in range(4) if inputs[i::4]]
     nsh = 14
-    per = ctx.scale(300, 2500)
+    per = ctx.scale(300, 1500)
     deadline = time.time() + max(10.0, ctx.time_left() * 0.55)
     jobs += [("gen", ctx.seed, s, per, ctx.tier, None, deadline) for s in range(nsh)]
     shard.run_shards(ctx, worker, jobs)
